@@ -24,6 +24,9 @@ type Tmpl struct {
 	Both   bool    `json:"both"` // declare the first param in soydoc AND the rest as header params (invalid Soy)
 	// unparse-only fields
 	Hdr     bool `json:"-"` // declare params with {@param} instead of soydoc
+	// HdrDefault spells required header params with a default value
+	// ({@param x: any = 1}); the implementation parses and ignores it.
+	HdrDefault bool `json:"-"`
 	Private bool `json:"-"`
 }
 
@@ -153,8 +156,8 @@ func UnparseProgram(p *Program, st Style) []File {
 		}
 		b.WriteString("}\n")
 		var aliased []string
-		for a := range p.Aliases {
-			if a != ns {
+		for a, on := range p.Aliases {
+			if on && a != ns {
 				aliased = append(aliased, a)
 			}
 		}
@@ -194,6 +197,8 @@ func UnparseProgram(p *Program, st Style) []File {
 				for _, pa := range t.Params {
 					if pa.Opt {
 						b.WriteString("{@param? " + pa.Name + ": any}\n")
+					} else if t.HdrDefault {
+						b.WriteString("{@param " + pa.Name + ": any = 1}\n")
 					} else {
 						b.WriteString("{@param " + pa.Name + ": any}\n")
 					}
@@ -338,7 +343,7 @@ func UnparseCmd(c Cmd, ns string, p *Program, st Style) string {
 		spell, _ := c["spell"].(string)
 		switch {
 		case spell == "fq":
-		case spell == "alias" && p != nil && aliasFor(p, fq, ns) != "":
+		case (spell == "alias" || spell == "attr-alias") && p != nil && aliasFor(p, fq, ns) != "":
 			// {alias a.b} lets "b.<rest>" name "a.b.<rest>": use the shortest
 			// aliased namespace that is a prefix of the callee's, so that <rest>
 			// may itself contain dots
@@ -348,7 +353,7 @@ func UnparseCmd(c Cmd, ns string, p *Program, st Style) string {
 			name = "." + Short(fq)
 		}
 		s := "{call " + name
-		if spell == "attr" {
+		if spell == "attr" || spell == "attr-alias" {
 			s = `{call name="` + name + `"`
 		}
 		switch c["data"].(string) {
